@@ -42,6 +42,19 @@ def run_case(col, r, idx):
     nsteps = r.choice([40, 80, 200]) if col.tier == 'quick' else r.choice([40, 100, 200, 300])
     h = storehist.History(r, lf, nsteps)
     col.count('histories')
+    # a store cannot be built from a batch that holds one token twice
+    dup = storehist.mk(r)
+    batch = [dup] + [storehist.mk(r) for _ in range(r.randint(0, 2 * lf))] + [dup]
+    try:
+        ts.TokenStore.from_tokens(batch)
+        col.ev()
+        col.violation('from_tokens:token-twice-accepted', 'from_tokens accepted a batch holding one token object twice', {'lf': lf, 'batch': len(batch)})
+        return
+    except ValueError:
+        col.count('from_tokens_duplicates_refused')
+        if any(t.store_handle is not None for t in batch):
+            col.violation('from_tokens:refused-but-attached', 'from_tokens refused a batch but left handles on its tokens', {'lf': lf})
+            return
     col.count(f'lf_{lf}')
     v = storemodel.compare_sequence(h.store, h.shadow, h.pairs())
     col.ev()
@@ -71,8 +84,8 @@ def run_case(col, r, idx):
         if op == 'live':
             col.count('live_tokens_offered')
             if info.get('live_accepted'):
-                col.violation(f'live-token-accepted:{info["live"]}', f'{info["live"]} accepted a token that is already in the store outside '
-                              f'the replaced range (or applied half of the batch before refusing)',
+                col.violation(f'live-token-accepted:{info["live"]}', f'{info["live"]}: the store accepted a token that is already in the store outside '
+                              f'the replaced range, a range that ends before it starts, or a reference token of another store (or applied half of a batch before refusing)',
                               {'lf': lf, 'init': h.init_sizes, 'log': h.log[-6:]})
                 return
         if info.get('still_attached') or info.get('not_empty'):
